@@ -26,6 +26,7 @@ ASSUMPTIONS = ['alias table is taken literally from the tree under test; entries
 LEVEL_TEXT = ('The global default step and PreferredUnits are process-global mutable state; their set/reset/create histories are explored to closure against a dictionary model, '
               'and the name parser is exercised on its complete finite alphabet (every name, every casing class).')
 
+BUDGETS = {'history': 1500}      # one cell runs a whole BFS to closure
 OVER = {'max_calc_step_size_feet': 0.2, 'chart_resolution': 0.7, 'cZeroFindingAccuracy': 0.01, 'cMinimumVelocity': 2000.0, 'cMaximumDrop': -1.0,
         'cMaxIterations': 2, 'cGravityConstant': -10.0, 'cMinimumAltitude': -0.5}
 DEFAULTS = {'max_calc_step_size_feet': 0.5, 'chart_resolution': 0.2, 'cZeroFindingAccuracy': 0.000005, 'cMinimumVelocity': 50.0, 'cMaximumDrop': -15000.0,
